@@ -99,6 +99,17 @@ def check_level(ctx, child, rng, where):
                     if not dscmp.arr_equal(np.asarray(cobj[t][i]), e[i]):
                         d = {"trace": t, "access": f"[{i}]"}
                         break
+                    if n >= 3:
+                        il = [int(v) for v in rng.permutation(n)[:min(n, 5)]]
+                        try:
+                            got_il = np.asarray(cobj[t][il])
+                        except (TypeError, IndexError, ValueError) as exc:
+                            ctx.count(f"index_list_refused[{type(exc).__name__}]")
+                        else:
+                            ctx.count("index_list_reads")
+                            if not dscmp.arr_equal(got_il, e[il]):
+                                d = {"trace": t, "access": f"[{il}] (integer list)"}
+                                break
             elif f == "contour":
                 for i in {0, n - 1, int(rng.integers(0, n))}:
                     if not dscmp.arr_equal(np.asarray(cobj[i]), np.asarray(pobj[int(sel[i])])):
@@ -120,6 +131,23 @@ def check_level(ctx, child, rng, where):
                         m = rng.random(n) < 0.5
                         if not dscmp.arr_equal(np.asarray(cobj[m]), pe[m]):
                             d = {"access": "[bool mask]"}
+                    if d is None and n >= 3:
+                        # integer index lists in arbitrary order (rotations, permutations,
+                        # repeats); containers that do not support them may refuse, but what
+                        # is returned must be the requested events in the requested order
+                        k_ = int(rng.integers(2, min(n, 7) + 1))
+                        il = [int(v) for v in (rng.permutation(n)[:k_] if rng.random() < 0.7
+                                               else rng.integers(0, n, k_))]
+                        if rng.random() < 0.3:
+                            il = il[1:] + il[:1]
+                        try:
+                            got_il = np.asarray(cobj[il])
+                        except (TypeError, IndexError, ValueError) as exc:
+                            ctx.count(f"index_list_refused[{type(exc).__name__}]")
+                        else:
+                            ctx.count("index_list_reads")
+                            if not dscmp.arr_equal(got_il, pe[il]):
+                                d = {"access": f"[{il}] (integer list)"}
             ctx.check("c04.child_feature", d is None, lambda: dict(where, feature=f, diff=d),
                       message=f"child[{f}] != parent[{f}][parent.filter.all]: {d}")
         except Exception as exc:
